@@ -328,6 +328,11 @@ static void c19_value(Case& cs) {
       CdnsReader rd(is);
       bool eof = false;
       src_read.reset(new CdnsBlockRead());
+      if (c.coin()) {   // the destination was used before (as in a reader loop that re-uses one block variable)
+        unsigned pre = (unsigned)c.range(1, 4);
+        for (unsigned i = 0; i < pre; i++) { ContentOp o = gen_op(c, pools, tc, 500 + i); apply_op(*src_read, o, nullptr); }
+        cs.st.cls("reader_block_assigned_onto_used_block");
+      }
       *src_read = rd.read_block(eof);   // reader return + assignment
       src = src_read.release();
     }
@@ -358,7 +363,14 @@ static void c19_value(Case& cs) {
 
   // ---- fate of the source
   bool moved_from = (how == 1 || how == 3);
-  if (fate == 1) { for (unsigned i = 0; i < 3; i++) { ContentOp o = gen_op(c, pools, tc, 2000 + i); apply_op(*src, o, nullptr); } }
+  if (fate == 1) {
+    for (unsigned i = 0; i < 3; i++) {
+      ContentOp o = gen_op(c, pools, tc, 2000 + i);
+      std::vector<index_t> r;
+      apply_op(*src, o, &r);
+      if (o.kind == 0) VF_CHECK(r[0] < blk_size(*src, o.t) && blk_get_equals(*src, o.t, r[0], o.p), "sig=c19.source_add add of " << TN[o.t] << " " << o.p.show() << " on the source block returned index " << r[0] << " (table size " << blk_size(*src, o.t) << ") which does not denote that value : " << desc);
+    }
+  }
   else if (fate == 2) src->clear();
   else if (fate == 3) { if (via_reader) delete static_cast<CdnsBlockRead*>(src); else delete src; src = nullptr; }
   if (fate == 1 || fate == 2) {
@@ -384,6 +396,7 @@ static void c19_value(Case& cs) {
       apply_op(ref, o, &b);
       if (o.kind == 0) VF_CHECK(a[0] == b[0], "sig=c19.add_index add of " << TN[o.t] << " " << o.p.show() << " on the copy returned " << a[0] << ", a freshly built block with the same content returns " << b[0] << " : " << desc);
     }
+    if (o.kind == 0) VF_CHECK(a[0] < blk_size(*copy, o.t), "sig=c19.add_index_out_of_range add of " << TN[o.t] << " " << o.p.show() << " on the copy returned index " << a[0] << " but the table has " << blk_size(*copy, o.t) << " entries : " << desc);
     if (o.kind == 0) VF_CHECK(blk_get_equals(*copy, o.t, a[0], o.p), "sig=c19.get get(" << a[0] << ") on the copy does not return the " << TN[o.t] << " value just added : " << desc);
   }
   if (have_ref) {
